@@ -20,6 +20,7 @@ import (
 	"github.com/tendermint/tendermint/consensus"
 	"github.com/tendermint/tendermint/crypto"
 	"github.com/tendermint/tendermint/crypto/ed25519"
+	"github.com/tendermint/tendermint/crypto/secp256k1"
 	"github.com/tendermint/tendermint/crypto/tmhash"
 	"github.com/tendermint/tendermint/evidence"
 	"github.com/tendermint/tendermint/libs/log"
@@ -114,6 +115,8 @@ func genConfig(rng *simcore.RNG, env *simcore.Env) simcore.Op {
 			c["prune"] = 30
 		}
 	}
+	// weight of blocks for which a misbehaving application returns an invalid EndBlock batch
+	c["badapp"] = []int{0, 3, 8}[rng.Intn(3)]
 	// a real evidence pool behind the executor; decided blocks carry duplicate-vote evidence
 	c["evpool"] = rng.Bool(0.4)
 	c["evrate"] = []int{10, 25, 50}[rng.Intn(3)]
@@ -431,10 +434,13 @@ func (s *sim) Next(rng *simcore.RNG) simcore.Op {
 			w[4], w[5] = 0, 0
 		}
 	}
+	if s.cfg.Int("big") == 0 && s.env.Checking("C08") {
+		w[8] = s.cfg.Int("badapp")
+	}
 	if s.decided != nil {
 		// a decided block is outstanding (lost in a crash): the restarted node saves it again
 		// before it does anything else to its stores
-		w[1], w[3], w[5] = 0, 0, 0
+		w[1], w[3], w[5], w[8] = 0, 0, 0, 0
 	}
 	switch rng.Weighted(w) {
 	case 0:
@@ -457,9 +463,60 @@ func (s *sim) Next(rng *simcore.RNG) simcore.Op {
 		return op
 	case 6:
 		return simcore.Op{"a": "restart"}
+	case 8:
+		return s.genBad(rng)
 	default:
 		return s.genLab(rng)
 	}
+}
+
+// genBad draws a block whose EndBlock batch mixes acceptable changes (removals, power
+// changes, additions) with an entry no batch may contain: a validator with a key type the
+// consensus parameters do not allow, or a negative power. The order of the batch is the
+// order of the transactions; Apply runs it in that order and reversed.
+func (s *sim) genBad(rng *simcore.RNG) simcore.Op {
+	h := s.tip + 1
+	var txs []string
+	if rng.Bool(0.5) {
+		txs = append(txs, fmt.Sprintf("k%d-bad=%d", h, rng.Intn(100)))
+	}
+	// acceptable part: prefer a removal / power change of a member
+	var members, others []int
+	for i := 0; i < s.kc.NKeys; i++ {
+		if _, ok := s.appVals[hex.EncodeToString(key(i).PubKey().Bytes())]; ok {
+			members = append(members, i)
+		} else {
+			others = append(others, i)
+		}
+	}
+	for j, nj := 0, rng.Range(0, 2); j < nj; j++ {
+		switch k := rng.Intn(10); {
+		case k < 5 && len(members) > 1:
+			txs = append(txs, string(chaingen.ValTx(members[rng.Intn(len(members))], 0)))
+		case k < 8 && len(members) > 0:
+			txs = append(txs, string(chaingen.ValTx(members[rng.Intn(len(members))], int64(rng.Range(1, 50)))))
+		case len(others) > 0:
+			txs = append(txs, string(chaingen.ValTx(others[rng.Intn(len(others))], int64(rng.Range(1, 50)))))
+		}
+	}
+	// the forbidden entry
+	switch rng.Intn(4) {
+	case 0:
+		txs = append(txs, fmt.Sprintf("valraw:ed25519:%x:%d", key(rng.Intn(s.kc.NKeys+2)).PubKey().Bytes(), -int64(rng.Range(1, 1000))))
+	default:
+		pk := secp256k1.GenPrivKeySecp256k1([]byte(fmt.Sprintf("storesim-secp-%d", rng.Intn(3)))).PubKey()
+		txs = append(txs, fmt.Sprintf("valraw:secp256k1:%x:%d", pk.Bytes(), int64(rng.Range(1, 100000))))
+	}
+	p := rng.Perm(len(txs))
+	out := make([]string, len(txs))
+	for i, j := range p {
+		out[i] = txs[j]
+	}
+	op := simcore.Op{"a": "badblock", "txs": out}
+	if rng.Bool(0.2) {
+		op["round"] = rng.Range(1, 2)
+	}
+	return op
 }
 
 func (s *sim) genCrash(rng *simcore.RNG, op simcore.Op, kind string) simcore.Op {
@@ -723,6 +780,10 @@ func (s *sim) Apply(op simcore.Op) bool {
 		}
 		s.sweep(kind, op)
 		s.sweeps++
+	case "badblock":
+		if s.decided != nil || !s.badBlock(op) {
+			return false
+		}
 	case "valbatch":
 		s.valBatch(op)
 	case "labinc":
@@ -1112,6 +1173,11 @@ func (s *sim) commitBlock(b *blk, prev, st sm.State) {
 		if msg := setInvariants(st.NextValidators, types.MaxTotalVotingPower); msg != "" {
 			e.Fail("C08", "set-malformed", "block %d: next validators: %s", h, msg)
 		}
+		for _, v := range st.NextValidators.Validators {
+			if !allowedKeyType(st.ConsensusParams, v.PubKey.Type()) {
+				e.Fail("C08", "forbidden-key-type-in-set", "block %d: member %X of the next validators has key type %s, allowed are %v", h, v.Address, v.PubKey.Type(), st.ConsensusParams.Validator.PubKeyTypes)
+			}
+		}
 		if len(after) != len(st.NextValidators.Validators) {
 			e.Fail("C08", "next-set-wrong", "block %d: application has %d validators, the node %d", h, len(after), len(st.NextValidators.Validators))
 		}
@@ -1184,6 +1250,105 @@ func (s *sim) checkPaths(cur *types.ValidatorSet, r int, ctx string) {
 			s.env.Count("probe.round_path_priorities_differ")
 		}
 	}
+}
+
+// allowedKeyType: the key type is one the consensus parameters list for validators.
+func allowedKeyType(p tmproto.ConsensusParams, t string) bool {
+	for _, a := range p.Validator.PubKeyTypes {
+		if a == t {
+			return true
+		}
+	}
+	return false
+}
+
+// badBlock: the application answers EndBlock with a batch that contains an entry no batch may
+// contain (a key type the parameters forbid, a negative power). The whole batch must be
+// refused whatever its order: ApplyBlock fails and leaves the state untouched. A node whose
+// application does this halts, so the block is executed on copies of the stores and of the
+// application (once per order) and the live node carries on with another block.
+func (s *sim) badBlock(op simcore.Op) bool {
+	e := s.env
+	txs := op.Strs("txs")
+	params := s.lastState.ConsensusParams
+	bad := ""
+	for _, t := range txs {
+		f := strings.Split(t, ":")
+		if len(f) < 4 || f[0] != "valraw" {
+			continue
+		}
+		pw, err := strconv.ParseInt(f[3], 10, 64)
+		if err != nil {
+			continue
+		}
+		if pw < 0 {
+			bad = "negative power"
+		} else if pw > 0 && !allowedKeyType(params, f[1]) {
+			bad = "key type " + f[1] + " not among " + fmt.Sprint(params.Validator.PubKeyTypes)
+		}
+	}
+	if bad == "" || !e.Checking("C08") {
+		return false
+	}
+	rev := make([]string, len(txs))
+	for i, t := range txs {
+		rev[len(txs)-1-i] = t
+	}
+	img0 := s.live.image(-1, -1, -1)
+	snap0 := s.app.Snapshot()
+	m0 := s.mark()
+	wasSweep := s.inSweep
+	s.inSweep = true
+	defer func() { s.inSweep = wasSweep }()
+	var verdicts []string
+	applied := 0
+	for _, order := range [][]string{txs, rev} {
+		s.app.Restore(snap0)
+		n := s.open(img0, "badblock")
+		n.connect(s, s.lastState)
+		o := simcore.Op{"txs": order, "round": op.Int("round")}.Normalize()
+		b := s.buildBlock(n, o)
+		if err := n.exec.ValidateBlock(n.state, b.block); err != nil {
+			panic(fmt.Sprintf("storesim: ValidateBlock(%d): %v", b.h, err))
+		}
+		n.bs.SaveBlock(b.block, b.parts, b.seen)
+		st, _, err := n.exec.ApplyBlock(n.state, b.id, b.block)
+		if err == nil {
+			applied++
+			verdicts = append(verdicts, fmt.Sprintf("%v -> applied, next validators %s", order, setString(st.NextValidators)))
+			for _, v := range st.NextValidators.Validators {
+				if !allowedKeyType(st.ConsensusParams, v.PubKey.Type()) {
+					verdicts[len(verdicts)-1] += fmt.Sprintf(" (member %X has forbidden key type %s)", v.Address, v.PubKey.Type())
+				}
+			}
+		} else {
+			verdicts = append(verdicts, fmt.Sprintf("%v -> %v", order, err))
+			// refused: nothing of the state may have changed
+			got, lerr := n.ss.Load()
+			if lerr != nil || !bytes.Equal(got.Bytes(), s.lastState.Bytes()) {
+				e.Fail("C08", "failed-batch-changed-state", "block %d with an invalid EndBlock batch (%s) was refused (%v) but the saved state changed", b.h, bad, err)
+			}
+			for _, h := range []int64{s.tip + 1, s.tip + 2} {
+				if want := s.vals[h]; want != nil {
+					if lv, lerr := n.ss.LoadValidators(h); lerr != nil || equalSets(lv, want) != "" {
+						e.Fail("C08", "failed-batch-changed-state", "block %d with an invalid EndBlock batch (%s) was refused (%v) but LoadValidators(%d) changed: %v", b.h, bad, err, h, lerr)
+					}
+				}
+			}
+		}
+		n.stop()
+		s.rewind(m0)
+	}
+	s.app.Restore(snap0)
+	s.rewind(m0)
+	e.Count("probe.bad_endblock_batch")
+	switch {
+	case applied == 1:
+		e.Fail("C08", "batch-validation-order-dependent", "EndBlock batch with an inadmissible entry (%s): the outcome depends on the order of the batch: %s | %s", bad, verdicts[0], verdicts[1])
+	case applied == 2:
+		e.Fail("C08", "inadmissible-batch-applied", "EndBlock batch with an inadmissible entry (%s) was applied in both orders: %s | %s", bad, verdicts[0], verdicts[1])
+	}
+	return true
 }
 
 // ---------------------------------------------------------------- prune
